@@ -286,3 +286,79 @@ Example monitor_silent_examples :
   /\ (let inp := L [A 3; L [L [A 0; A 5]; L [A 0; A 7]; L [A 2]; L [A 1; A 5]; L [A 2]; L [A 3]; L [A 2]]] in
       run17 inp = L [L [A 5; A 7; A 5]] /\ agree17 inp (run17 inp) = true /\ mon17 inp (run17 inp) = []).
 Proof. exact (conj seq_example (conj ec_example lru_example)). Qed.
+
+(** CONCURRENT case kind (2: deduplicating / concurrency-limiting / queued
+    replicator under gated schedules).  The judge accepts a SET of
+    observations: every model state reachable by running the lock-protected
+    sections to quiescence in any order that shows the observed statuses,
+    maxima and sink contents.  [mon_conc] is, clause group by clause group,
+    [mon_conc_counts ++ mon_conc_success]:
+
+    - clauses 21/22/23 (more concurrent copies per key than one / overall than
+      the configured limit / than one) are silent on EVERY observation the
+      judge accepts, for every input.  (Proof: every state the judge keeps is
+      reachable in the transition system, Run/R17Proofs.v; the maxima the
+      harness reports are bounded on every reachable state,
+      Compose/MonSilentRepl.v, from the invariants behind
+      [dedup_at_most_one_copy_per_key], [limit_at_most_k],
+      [queued_at_most_one].)
+    - clauses 24/25 (success without justification) are evaluated on the
+      harness's event log (obs[4]).  The judge's agreement test does not read
+      the log and the model has no counterpart of it, so "accepted => silent"
+      is not a theorem for them: [monitor_domain_boundary] below gives an
+      accepted observation with a made-up log on which clause 24 fires.  For
+      these clauses the chain is closed only at the model level, by
+      [success_justified] above (on the model's own history variables). *)
+Theorem monitor_conc_is_counts_then_success : forall inp obs,
+  mon_conc inp obs = if sx_eqb obs (L [A (-1)]) then [] else mon_conc_counts inp obs ++ mon_conc_success inp obs.
+Proof. exact mon_conc_split. Qed.
+Print Assumptions monitor_conc_is_counts_then_success.
+
+Theorem monitor_silent_on_agreeing_observation_concurrent_counts : forall inp obs,
+  sx_Z (sx_nth inp 0) = 2 -> agree17 inp obs = true -> mon_conc_counts inp obs = [].
+Proof. exact conc_counts_silent_on_agreeing. Qed.
+Print Assumptions monitor_silent_on_agreeing_observation_concurrent_counts.
+
+(** The bound behind it, for every trace of the transition system. *)
+Theorem reported_maxima_bounded : forall m sets source sink tr s,
+  run m (init_state sets source sink) tr = Some s ->
+  match m with
+  | MDedup => (maxkey s <= 1)%nat
+  | MLimit k => (maxall s <= k)%nat
+  | MQueued _ _ => (maxall s <= 1)%nat
+  end.
+Proof. exact Compose.MonSilentRepl.maxima_bounded. Qed.
+Print Assumptions reported_maxima_bounded.
+
+(** Domain boundary.  The sequential statement has no hypothesis.  The only
+    hypothesis anywhere, "kind <> 2" in
+    [monitor_silent_on_agreeing_observation_sequential], is necessary: a
+    kind-2 input, an observation the judge accepts (no events, one caller not
+    started) and a made-up log "caller 0 starts, caller 0 returns OK" - clause
+    24 fires.  The harness derives the log from the real run and cannot
+    produce this pair; the point is that agreement does not constrain the log.
+    Also shown: an existence cache of size 0 (rejected by harness/c17.go, which
+    demands 1..64) is inside the domain of the theorem - the model panics at
+    the first recording and the monitor does not judge panics. *)
+Example monitor_domain_boundary :
+  (let inp := L [A 2; L [A 0]; L [L [A 0]]; L [A 0]; L []; L []] in
+   let obs := L [L []; A 0; A 0; L []; L [L [A 0; A 0; A 0]; L [A 3; A 0; A 0; A 0]]] in
+   agree17 inp obs = true /\ mon17 inp obs = [24] /\ mon_conc_counts inp obs = [])
+  /\ (let inp := L [A 1; A 0; A 5; L [L [A 3; A 0]; L [A 0; L [A 0]; A 0; A 0; A 0]]] in
+      run17 inp = L [A (-1)] /\ mon17 inp (run17 inp) = []).
+Proof. exact (conj conc_success_clauses_not_determined_by_agreement ec_size0_example). Qed.
+
+(** Non-vacuity for kind 2: two callers of the deduplicating replicator for
+    the same object, the second waits while the first copies; the judge
+    accepts the observation and no clause fires. *)
+Example monitor_silent_example_concurrent :
+  let inp := L [A 2; L [A 0]; L [L [A 0]; L [A 0]]; L [A 0]; L [];
+                L [L [A 0; A 0]; L [A 0; A 1]; L [A 1; A 0; A 0]; L [A 1; A 0; A 0]; L [A 1; A 0; A 0]]] in
+  let obs := L [L [L [L [A 1; A 0; A 2; L [A 0]]; L [A 0]];
+                   L [L [A 1; A 0; A 2; L [A 0]]; L [A 2]];
+                   L [L [A 1; A 1; A 0; L [A 0]]; L [A 2]];
+                   L [L [A 1; A 0; A 1; L [A 0]]; L [A 2]];
+                   L [L [A 3; A 0]; L [A 3; A 0]]];
+                A 1; A 1; L [A 0]; L []] in
+  agree17 inp obs = true /\ mon17 inp obs = [].
+Proof. exact conc_example. Qed.
